@@ -151,6 +151,12 @@ def deflate_opt():
     return weighted([(3, st.just(False)), (1, st.just(True)), (2, cfg)])
 
 
+def companion(weight_none=5):
+    """A second live connection in the same process (simnet.Companion): mostly none."""
+    spec = st.fixed_dictionaries({"mode": st.sampled_from(["interleaved", "interleaved", "blocked_in_send"])})
+    return weighted([(weight_none, st.none()), (1, spec)])
+
+
 def prelude(weight_none=4):
     """An earlier connection in the same process (see build.prelude): mostly none."""
     from .build import PRELUDE_KINDS
